@@ -2,14 +2,17 @@
     formula, root / reserved constants, FAT[0]): whenever the geometry computation succeeds the volume fits in the
     requested size, has at least one cluster, announces its sector count in exactly one of the two fields, and FAT[0]
     is the media byte with all other bits set, and (C14_type_range, for every size, sector size and FAT count) the
-    cluster count lies in the range the specification assigns to the requested type.  That the FAT covers count+2
-    entries is NOT proved (the upstream formula over-estimates; it is checked on the real mkfs at every table boundary
-    by the independent checker).
+    cluster count lies in the range the specification assigns to the requested type; and (C14_fat_covers) the FAT laid out
+    holds an entry for every cluster plus the two reserved ones — for every size, 1..255 FATs and sector size 512 or >= 1024:
+    FAT12 and FAT32 always, FAT16 whenever the size table chose at most 32 sectors per cluster at 512-byte sectors, i.e. for
+    every volume up to 2 097 152 sectors (1 GiB; the property speaks of "hundreds of MiB").  Beyond that (FAT16, 64 sectors per
+    cluster, 512-byte sectors) the statement is FALSE of the code: C14_fat16_above_1GiB_refuted exhibits 2 097 383 sectors, where
+    the FAT is one entry short (recorded in DESIGN.md as outside the property's quantifier).
     History: C14_type_range was false of the pinned source (refuted by ft=32, size=34099712, ss=512, nf=3: 65018
     clusters, and ft=16 at the 2 GiB row: 65527 clusters); repaired in /repo by "fix: mkfs refuses geometries whose
     cluster count belongs to another FAT type" — the theorem is about the code regenerated from the repaired source. *)
 From Coq Require Import ZArith List Bool.
-From PyFatV Require Import Base.Bytes Base.PyEnv Gen.Pure Proofs.Geometry.
+From PyFatV Require Import Base.Bytes Base.PyEnv Gen.Pure Proofs.Geometry Proofs.FatCover.
 Import ListNotations.
 Open Scope Z_scope.
 
@@ -50,3 +53,19 @@ Example C14_type_examples :
   (exists x, Gen.mkfs_geometry pf_init 32 34099712 512 2 = Ok x) /\ Gen.mkfs_geometry pf_init 32 34099712 512 3 = Err EINVAL /\
   (exists x, Gen.mkfs_geometry pf_init 16 (32 * 1024 * 1024) 512 2 = Ok x) /\ type_of_count 65524 = 16 /\ type_of_count 65525 = 32 /\ type_of_count 4084 = 12.
 Proof. vm_compute. repeat split; try reflexivity; eexists; reflexivity. Qed.
+
+Theorem C14_fat_covers : forall ft size ss nf p num_sec spc rootent rsvd f16 f32 t16 t32,
+  ft = 12 \/ ft = 16 \/ ft = 32 -> ss = 512 \/ 1024 <= ss -> 0 <= size -> 1 <= nf <= 255 ->
+  (ft = 16 -> ss = 512 -> spc <= 32) ->
+  Gen.mkfs_geometry pf_init ft size ss nf = Ok (p, num_sec, spc, rootent, rsvd, f16, f32, t16, t32) ->
+  ((num_sec - (rsvd + root_dir_sectors p + nf * _fat_size p)) / spc + 2) * ft <= _fat_size p * ss * 8.
+Proof. exact mkfs_fat_covers. Qed.
+Print Assumptions C14_fat_covers.
+Theorem C14_fat16_above_1GiB_refuted : exists size p num_sec spc rootent rsvd f16 f32 t16 t32,
+  Gen.mkfs_geometry pf_init 16 size 512 2 = Ok (p, num_sec, spc, rootent, rsvd, f16, f32, t16, t32) /\ spc = 64 /\
+  _fat_size p * 512 * 8 < ((num_sec - (rsvd + root_dir_sectors p + 2 * _fat_size p)) / spc + 2) * 16.
+Proof. exact mkfs_fat16_short_refuted. Qed.
+Print Assumptions C14_fat16_above_1GiB_refuted.
+(* the premises are met: a 33 MiB FAT16 volume gets 4 sectors per cluster and a 66-sector FAT: (16863 + 2) * 16 <= 66 * 512 * 8 *)
+Example C14_fat_covers_example : exists p, Gen.mkfs_geometry pf_init 16 (33 * 1048576) 512 2 = Ok (p, 67584, 4, 512, 1, 66, 0, 0, 67584) /\ _fat_size p = 66.
+Proof. eexists. split; vm_compute; reflexivity. Qed.
